@@ -101,10 +101,13 @@ def build_plan(tier, seed):
     runs.append({"name": "col_reactions_b5", "inputs": [{"reactions": s_} for s_ in other], "form": "dict",
                  "reaction_col": "reactions", "batch_size": 5, "n_jobs": 8, "threshold": 0.5})
     # one Balancer object: the mapped rows with atom-map removal switched off, then the SAME rows with the default again
-    runs.append({"name": "maps_kept", "inputs": dup, "form": "list", "batch_size": None, "n_jobs": 4, "threshold": 0,
+    # (strings this process has not seen before: the map numbers are shifted)
+    import re as _re
+    dup2 = [_re.sub(r":(\d+)\]", lambda m_: ":%d]" % (int(m_.group(1)) + 100), s_) for s_ in dup]
+    runs.append({"name": "maps_kept", "inputs": dup2, "form": "list", "batch_size": None, "n_jobs": 4, "threshold": 0,
                  "remove_aam": False})
-    runs.append({"name": "maps_removed_again", "inputs": dup, "form": "list", "batch_size": None, "n_jobs": 4, "threshold": 0})
-    runs.append({"name": "maps_removed_again_b5", "inputs": dup, "form": "dict", "batch_size": 5, "n_jobs": 4, "threshold": 0})
+    runs.append({"name": "maps_removed_again", "inputs": dup2, "form": "list", "batch_size": None, "n_jobs": 4, "threshold": 0})
+    runs.append({"name": "maps_removed_again_b5", "inputs": dup2, "form": "dict", "batch_size": 5, "n_jobs": 4, "threshold": 0})
     # thresholds sitting on a reported confidence (learned from the run "only_mcs" in the same process)
     thr_in = kinds["mcs"] + kinds["rule"][:2] + kinds["balanced"][:2]
     for k in range(3 if quick else 6):
